@@ -644,6 +644,28 @@ fn utf16_len(bytes: &[u8]) -> usize {
         .sum()
 }
 
+/// Verification hook (add-only, compiled only under the verification cfg): lets the C18 check
+/// call the private leaf functions on arbitrary byte strings.
+#[cfg(tree_sitter_tree_sitter_verif)]
+pub mod verif {
+    use super::{Point, Range};
+
+    #[must_use]
+    pub fn line_range(
+        text: &[u8],
+        start_byte: usize,
+        start_point: Point,
+        max_line_len: usize,
+    ) -> Range<usize> {
+        super::line_range(text, start_byte, start_point, max_line_len)
+    }
+
+    #[must_use]
+    pub fn utf16_len(bytes: &[u8]) -> usize {
+        super::utf16_len(bytes)
+    }
+}
+
 #[cfg(test)]
 mod tests {
     use super::*;
